@@ -47,7 +47,7 @@ func c06MakeEntry(dir, name, kind string, w *World) {
 func TestC06(t *testing.T) {
 	r := NewReporter(t)
 	defer r.Done()
-	r.Rule("directories with 0..3 entries of every kind combination (file, dir, symlink->file, symlink->dir, dangling, self-referencing link, link through a regular file) and name sets (ASCII, space, non-ASCII, 255 bytes, not valid UTF-8) x every interleaving of {ReadDir, ReadDirEntry, ReadDirEntryV2} of length <= entries+2 after OpenDir; sizes and modification times beyond 32 bits; directories named like disc images (with key files) and like protocol keywords; entry-count families (1..40 / 1..300 contiguous, then powers of two +-1 up to 4097); listings after another client abandoned its own (write failure or reset after k bytes of a 1500-entry bulk answer, disconnect between entries); Stat and GetDirSize on every path of every tree with <= 3 nodes; distinct by (directory shape, command sequence)")
+	r.Rule("directories with 0..3 entries of every kind combination (file, dir, symlink->file, symlink->dir, dangling, self-referencing link, link through a regular file) and name sets (ASCII, space, non-ASCII, 255 bytes, not valid UTF-8) x every interleaving of {ReadDir, ReadDirEntry, ReadDirEntryV2} of length <= entries+2 after OpenDir; sizes and modification times beyond 32 bits; directories named like disc images (with key files) and like protocol keywords; all histories of <= 3 (thorough 4) requests over {three listing commands, open / CLOSEFILE / failed open of a file, read, stat, dir-size, failed open-dir} between OpenDir and two more listing commands; entry-count families (1..40 / 1..300 contiguous, then powers of two +-1 up to 4097); listings after another client abandoned its own (write failure or reset after k bytes of a 1500-entry bulk answer, disconnect between entries); Stat and GetDirSize on every path of every tree with <= 3 nodes; distinct by (directory shape, command sequence)")
 	w := newWorld(t, "srv/root")
 	defer w.Cleanup()
 	mkFileAbs(filepath.Join(w.Root, "targets", "tfile"), 1234, 7, baseTime.Add(time1(40)))
@@ -189,6 +189,39 @@ func TestC06(t *testing.T) {
 		}
 	}
 	os.RemoveAll(filepath.Join(w.Root, "L"))
+
+	// (a') an enumeration interleaved with everything else a connection can do (open / close / read a file, stat,
+	// dir-size, failed opens): the open directory and its position belong to the listing commands alone
+	{
+		dir := filepath.Join(w.Root, "L")
+		os.RemoveAll(dir)
+		must(os.Mkdir(dir, 0o755))
+		mkFileAbs(filepath.Join(dir, "a.bin"), 100, 1, baseTime)
+		mkFileAbs(filepath.Join(dir, "b.bin"), 2000, 2, baseTime.Add(time1(3)))
+		must(os.Mkdir(filepath.Join(dir, "c"), 0o755))
+		alpha := []Req{noargReq(opReadDirEntry), noargReq(opReadDirEntryV2), noargReq(opReadDir), mkReq(opOpenFile, "/L/b.bin"), mkReq(opOpenFile, "/CLOSEFILE"), mkReq(opOpenFile, "/nope"),
+			rdReq(5, 50), mkReq(opStatFile, "/L/a.bin"), mkReq(opGetDirSize, "/L"), mkReq(opOpenDir, "/nope")}
+		depth := 3
+		if r.Thorough() {
+			depth = 4
+		}
+		var rec func(h []Req)
+		rec = func(h []Req) {
+			if len(h) > 0 {
+				caseIdx++
+				if r.Mine(caseIdx) {
+					run("enumeration interleaved with other requests", append(append([]Req{mkReq(opOpenDir, "/L")}, h...), noargReq(opReadDirEntry), noargReq(opReadDir)))
+				}
+			}
+			if len(h) == depth {
+				return
+			}
+			for _, a := range alpha {
+				rec(append(append([]Req{}, h...), a))
+			}
+		}
+		rec(nil)
+	}
 
 	// (b'') a listing that another client abandoned half-way (its connection fails after k bytes of the bulk answer, or
 	// it disconnects between two entries): the next client's listings are those of its own directories, complete
